@@ -27,6 +27,14 @@ type inflight struct {
 	cs    map[string]interface{}
 }
 
+type sentInflight struct {
+	start time.Time
+	sc    SCase
+}
+
+// sentSlots holds the sentence-scope cases that are being evaluated right now.
+var sentSlots [256]atomic.Value
+
 type watchdog struct {
 	mu    sync.Mutex
 	calls map[int64]*inflight
@@ -63,6 +71,15 @@ func runC14(c *Ctx) {
 			case <-stop:
 				return
 			case <-t.C:
+				for i := range sentSlots {
+					if f, _ := sentSlots[i].Load().(*sentInflight); f != nil && time.Since(f.start) > hangDeadline {
+						if atomic.CompareAndSwapInt32(&wd.hung, 0, 1) {
+							c.Violate(fmt.Sprintf("hang:check:%s:%d", hs(f.sc.S), f.sc.L), fmt.Sprintf("CheckMnemonic(%q, %s) did not return within %v (%s)", f.sc.S, ref.LangNames[f.sc.L], hangDeadline, f.sc.Class),
+								map[string]interface{}{"kind": "check-returns", "sentence": hs(f.sc.S), "lang": f.sc.L, "class": f.sc.Class})
+							close(hungCh)
+						}
+					}
+				}
 				wd.mu.Lock()
 				for _, f := range wd.calls {
 					if time.Since(f.start) > hangDeadline {
@@ -287,25 +304,35 @@ func c14body(c *Ctx, guard func(key, what string, cs map[string]interface{}, f f
 		}
 	}, func(j sj) {
 		for _, l := range []int{2, 5} {
-			w := c.M.List[l][0]
-			for cut := 0; cut <= j.k-1 || cut == 0; cut++ {
-				if j.a == j.b && cut > 0 {
-					break
-				}
-				var b strings.Builder
-				for i := 0; i < j.k; i++ {
-					if i > 0 {
-						if i-1 < cut {
-							b.WriteString(seps[j.a])
-						} else {
-							b.WriteString(seps[j.b])
-						}
+			// once with the first list word everywhere (index 0: all-zero bits) and once with words of
+			// varied non-zero indices (index arithmetic on a miscounted sentence is invisible on zeros)
+			for _, varied := range []bool{false, true} {
+				for cut := 0; cut <= j.k-1 || cut == 0; cut++ {
+					if j.a == j.b && cut > 0 {
+						break
 					}
-					b.WriteString(w)
+					var b strings.Builder
+					for i := 0; i < j.k; i++ {
+						if i > 0 {
+							if i-1 < cut {
+								b.WriteString(seps[j.a])
+							} else {
+								b.WriteString(seps[j.b])
+							}
+						}
+						idx := 0
+						if varied {
+							idx = (1 + i*331) % 2048
+							if idx == 0 {
+								idx = 2047
+							}
+						}
+						b.WriteString(c.M.List[l][idx])
+					}
+					s := b.String()
+					cs := map[string]interface{}{"kind": "check", "sentence": hs(s), "lang": l, "expect": "returns"}
+					guard(fmt.Sprintf("CheckSep:%d:%d:%d:%d:%d:%v", j.k, j.a, j.b, cut, l, varied), fmt.Sprintf("CheckMnemonic(%d words, separators %q x%d then %q, %s)", j.k, seps[j.a], cut, seps[j.b], ref.LangNames[l]), cs, func() { _ = bip39.CheckMnemonic(s, Langs[l]) })
 				}
-				s := b.String()
-				cs := map[string]interface{}{"kind": "check", "sentence": hs(s), "lang": l, "expect": "returns"}
-				guard(fmt.Sprintf("CheckSep:%d:%d:%d:%d:%d", j.k, j.a, j.b, cut, l), fmt.Sprintf("CheckMnemonic(%d words, separators %q x%d then %q, %s)", j.k, seps[j.a], cut, seps[j.b], ref.LangNames[l]), cs, func() { _ = bip39.CheckMnemonic(s, Langs[l]) })
 			}
 		}
 	})
@@ -402,9 +429,19 @@ func c14body(c *Ctx, guard func(key, what string, cs map[string]interface{}, f f
 	// suffixes, separator damage, extreme lengths): those checks judge verdicts and leave a panic to
 	// this one
 	var nsc int64
+	// in-flight cases are visible to the hang watchdog through a small table of slots (a mutex-
+	// guarded map per case would dominate the cost of these microsecond calls)
+	free := make(chan int, len(sentSlots))
+	for i := range sentSlots {
+		free <- i
+	}
 	c.forAllSentenceCases(func(sc SCase) {
+		slot := <-free
+		sentSlots[slot].Store(&sentInflight{time.Now(), sc})
 		var pn string
 		pn = call(func() { _ = bip39.CheckMnemonic(sc.S, Langs[sc.L]); _ = bip39.IsMnemonicValid(sc.S, Langs[sc.L]) })
+		sentSlots[slot].Store((*sentInflight)(nil))
+		free <- slot
 		atomic.AddInt64(&nsc, 1)
 		if pn != "" {
 			c.Violate(fmt.Sprintf("panic:check:%s:%d", hs(sc.S), sc.L), fmt.Sprintf("CheckMnemonic(%q, %s) panicked: %s (%s)", sc.S, ref.LangNames[sc.L], pn, sc.Class),
